@@ -1,7 +1,7 @@
 (* C18 proofs, top: the lemmas Props/C18.v closes its theorems with *)
 From Coq Require Import ZArith List Bool Lia Permutation Sorting.Sorted.
 Import ListNotations.
-From SCMO Require Import Lib.Val Model.C18 Proofs.C18_a Proofs.C18_b Proofs.C18_c Proofs.C18_d Proofs.C18_e.
+From SCMO Require Import Lib.Val Gen.GenAlleles Model.C18 Proofs.C18_s Proofs.C18_a Proofs.C18_b Proofs.C18_c Proofs.C18_d Proofs.C18_e.
 Open Scope Z_scope.
 
 (* eager loading answers the specification (no cache, no name condition needed) *)
@@ -101,9 +101,9 @@ Definition sem_eq (cf cf0 : cfg) : Prop :=
   c_phased cf = c_phased cf0 /\ c_select cf = c_select cf0 /\ c_ignore cf = c_ignore cf0.
 
 Lemma cache_name_ext cf cf0 c : sem_eq cf cf0 -> cache_name cf c = cache_name cf0 c.
-Proof. intros (H1 & H2 & H3). unfold cache_name. rewrite H1, H2, H3. reflexivity. Qed.
+Proof. intros (H1 & H2 & H3). rewrite !cache_name_shape. unfold cache_name_ref. rewrite H1, H2, H3. reflexivity. Qed.
 Lemma cache_name_contig cf c1 c2 : cache_name cf c1 = cache_name cf c2 -> c1 = c2.
-Proof. unfold cache_name. intros H. apply app_inv_tail in H. exact H. Qed.
+Proof. rewrite !cache_name_shape. unfold cache_name_ref. intros H. apply app_inv_tail in H. exact H. Qed.
 
 Lemma sel_same_refl a : sel_same a a = true.
 Proof.
